@@ -19,5 +19,6 @@ MC_UserParams == <<>>
 MC_LockNames == {}
 MC_CallerIds == {}
 
+MC_Files == <<>>
 Dump == PrintT(ToJson([path |-> hist, op |-> lastOp', out |-> lastOut', sets |-> lastSets', post |-> Abs(obj')]))
 =========================================================================
